@@ -32,7 +32,14 @@ def mis(s, beta_final=1.0):
     return u - L, L - np.log(len(u))
 
 
-def check_post(s, n_total, blobs):
+def llv(X):
+    X = np.atleast_2d(X)
+    out = -0.5 * np.sum((X - 0.4) ** 2, axis=1) / 0.36
+    out[X[:, 0] < -3.2] = -np.inf
+    return out
+
+
+def check_post(s, n_total, blobs, light=False):
     lw, lz = mis(s)
     w = np.exp(lw)
     ess = 1.0 / np.sum(w ** 2)
@@ -43,6 +50,41 @@ def check_post(s, n_total, blobs):
         return f"run() returned with history ESS {ess:.1f} < n_total {n_total}"
     if abs(s.evidence()[0] - lz) > 1e-8 * (1 + abs(lz)):
         return f"evidence() {s.evidence()[0]} != MIS evidence at beta=1 recomputed from history {lz}"
+    X = s.state.get_history("x", flat=True)
+    if light:
+        # long histories: the returned weights / log-weights against the independent evaluation, row by row
+        x, wts, logl, lwr = s.posterior(resample=False, trim_importance_weights=False, return_logw=True)
+        if not (len(x) == len(wts) == len(logl) == len(lwr) == len(lw)):
+            return f"posterior(trim=False) on a history of {len(lw)} particles returns {len(x)} rows"
+        if not np.allclose(llv(x), logl, rtol=1e-12, atol=1e-12):
+            return "posterior(trim=False): logl rows do not belong to the sample rows"
+        if abs(wts.sum() - 1) > 1e-9 or not np.allclose(wts, w, rtol=1e-7, atol=1e-15):
+            return (f"posterior(trim=False) on a history of {len(lw)} particles: weights deviate from the mixture-importance-sampling weights recomputed "
+                    f"from the stored history (max relative deviation {np.max(np.abs(wts - w) / np.maximum(w, 1e-300)):.3g})")
+        if not (np.allclose(lwr, lw, rtol=1e-7, atol=1e-7) or np.allclose(lwr - lwr.max(), lw - lw.max(), rtol=1e-7, atol=1e-7)):
+            return f"posterior(return_logw=True) on a history of {len(lw)} particles: log-weights deviate from the recomputed ones by {np.abs(lwr - lw).max():.3g}"
+        return None
+    # the arrays handed out are the caller's: editing them in place changes no later result
+    ref = [np.array(o, copy=True) for o in s.posterior(resample=False, trim_importance_weights=False, return_blobs=blobs, return_logw=True)]
+    for rounds in range(2):
+        got = s.posterior(resample=False, trim_importance_weights=False, return_blobs=blobs, return_logw=True)
+        for o, r0 in zip(got, ref):
+            if np.shape(o) != r0.shape or not np.array_equal(np.asarray(o), r0):
+                return "posterior(trim=False, resample=False) changed after the arrays returned by an earlier posterior() call were edited in place by the caller"
+        for o in got:
+            try:
+                o[...] = -7.0
+            except (ValueError, TypeError):
+                pass
+        for k in ("x", "logl", "u"):
+            fl = s.state.get_history(k, flat=True)
+            try:
+                fl[...] = -3.0
+            except (ValueError, TypeError):
+                pass
+    lw2, lz2 = mis(s)
+    if abs(lz2 - lz) > 1e-12 or abs(s.evidence()[0] - lz) > 1e-8 * (1 + abs(lz)):
+        return "the stored history / evidence() changed after arrays returned by posterior() and get_history(flat=True) were edited in place"
     X = s.state.get_history("x", flat=True)
     for rs, tr, rb, rl in itertools.product((False, True), repeat=4):
         for (et, bt) in ((0.99, 1000), (0.5, 7)):
@@ -90,6 +132,21 @@ def main():
                 print(json.dumps({"reproduced": True, "detail": r, "tried": tried,
                                   "input": dict(kernel=kernel, resample=resample, clustering=clustering, blobs=blobs, n_total=n_total)}))
                 return
+        # a history of more than 2**16 particles (production-size run, vectorised likelihood)
+        tried += 1
+        s = Sampler(pt, llv, n_dim=2, n_particles=4096, random_state=6, clustering=False, vectorize=True, output_dir=tmp)
+        s.run(n_total=40000, progress=False)
+        r = check_post(s, 40000, False, light=True)
+        while not r and len(s.state.get_history("logl", flat=True)) <= 2 ** 16 + 4096:
+            s.sample()                                    # further iterations at beta = 1 until the history exceeds 2**16 particles
+            lw, lz = mis(s)
+            x, wts, logl, lwr = s.posterior(resample=False, trim_importance_weights=False, return_logw=True)
+            if len(wts) != len(lw) or not np.allclose(wts, np.exp(lw), rtol=1e-7, atol=1e-15):
+                r = (f"posterior(trim=False) on a history of {len(lw)} particles: weights deviate from the mixture-importance-sampling weights recomputed "
+                     f"from the stored history")
+        if r:
+            print(json.dumps({"reproduced": True, "detail": r, "tried": tried, "input": dict(n_particles=4096, n_total=40000, vectorize=True, clustering=False)}))
+            return
         # resume with a larger target
         d = os.path.join(tmp, "r")
         s = Sampler(pt, ll, n_dim=2, n_particles=32, random_state=4, output_dir=d)
